@@ -32,8 +32,8 @@ func init() {
 		p.EmbedPct = 40
 		p.MultiRefPct = 15
 	}), Oracle: oracle.C11}
-	Props["C12"] = &PropDef{Profile: prof("C12", func(p *gen.Profile) { p.AdvNames = true; p.MaxParams = 6; p.UnnamedPct = 35; p.GenericPct = 10 }), Oracle: oracle.C12}
-	Props["C13"] = &PropDef{Profile: prof("C13", func(p *gen.Profile) { p.AdvNames = true; p.MaxParams = 5; p.UnnamedPct = 55; p.GenericPct = 8; p.MaxDepth = 4 }), Oracle: oracle.C13}
+	Props["C12"] = &PropDef{Profile: prof("C12", func(p *gen.Profile) { p.AdvNames = true; p.MaxParams = 6; p.UnnamedPct = 35; p.GenericPct = 10; p.ShadowPct = 25 }), Oracle: oracle.C12}
+	Props["C13"] = &PropDef{Profile: prof("C13", func(p *gen.Profile) { p.AdvNames = true; p.MaxParams = 5; p.UnnamedPct = 55; p.GenericPct = 8; p.MaxDepth = 4; p.ShadowPct = 10 }), Oracle: oracle.C13}
 	Props["C14"] = &PropDef{Profile: prof("C14", func(p *gen.Profile) {
 		p.Conflict = true
 		p.MinDeps = 3
@@ -42,6 +42,7 @@ func init() {
 		p.AdvNames = true
 		p.OutFilePct = 0
 		p.MultiRefPct = 45
+		p.ShadowPct = 45
 	}), Oracle: oracle.C14}
 	Props["C16"] = &PropDef{Profile: prof("C16", func(p *gen.Profile) { p.OutFilePct = 0; p.MaxParams = 6 }), Mutate: c16Mutate, Oracle: oracle.C16}
 	Props["C19"] = &PropDef{Profile: prof("C19", func(p *gen.Profile) {
